@@ -19,5 +19,13 @@ MCInv == TypeOK /\ DomainInv
 
 (* every table entry and every numeric type contributes at least one point *)
 ASSUME \A b \in Builtins : \E e \in ElemsOf(b) : ArgTuples(b, e) # {}
+(* the type-argument dimension: every size class has an element type, and every generic   *)
+(* built-in is enumerated for every element type (zero-sized ones included) at every       *)
+(* length class of its list arguments                                                      *)
+ASSUME {ElemSize[e] : e \in ElemKinds} = SizeClasses
+ASSUME \A b \in Builtins : IsGeneric(b) =>
+          \A e \in ElemKinds : \A i \in 1..Len(b.params) : b.params[i] = "L:T" =>
+             \A c \in LenClasses : \E t \in ArgTuples(b, e) : t[i].c = c
 ASSUME PrintT(<<"TABLE", ToJson(Builtins)>>)
+ASSUME PrintT(<<"ELEMS", ToJson([size |-> ElemSize, len |-> LenOf, growth |-> GrowthLen])>>)
 =============================================================================
